@@ -67,10 +67,16 @@ Print Assumptions C12_B4_forward_decl_refuted.
 (* a.lua: for i = 1, f(function(yy)\nreturn yy end), g(function() end) do end\n *)
 Definition w_B5_for_step_order : list (list N * list N) :=
   [([97; 46; 108; 117; 97], [102; 111; 114; 32; 105; 32; 61; 32; 49; 44; 32; 102; 40; 102; 117; 110; 99; 116; 105; 111; 110; 40; 121; 121; 41; 10; 114; 101; 116; 117; 114; 110; 32; 121; 121; 32; 101; 110; 100; 41; 44; 32; 103; 40; 102; 117; 110; 99; 116; 105; 111; 110; 40; 41; 32; 101; 110; 100; 41; 32; 100; 111; 32; 101; 110; 100; 10])].
-(* numeric for visits init, STEP, limit: a function scope of the step is stored before the function scopes of the limit, FindMinScope's early exit (`subScope.StartLine > line => break`) then never reaches a function in the limit that starts on an earlier line: its parameters/locals resolve to nothing and are not completed *)
-Theorem C12_B5_for_step_order_refuted : c12_deviates w_B5_for_step_order [97; 46; 108; 117; 97] 1 7 = true.
+(* B5, FIXED (fixes/C05-for-step-order.diff): numeric for visited init, STEP, limit: a function scope of the step was stored
+   before the function scopes of the limit, FindMinScope's early exit (`subScope.StartLine > line => break`) then never
+   reached a function in the limit that starts on an earlier line: its parameters/locals resolved to nothing and were not
+   completed.  The witness deviates for the code before the repair (`no_fixes`) and no longer for the code in /repo. *)
+Theorem C12_B5_for_step_order_refuted_before_fix : c12_deviates_fx no_fixes w_B5_for_step_order [97; 46; 108; 117; 97] 1 7 = true.
 Proof. vm_compute. reflexivity. Qed.
-Print Assumptions C12_B5_for_step_order_refuted.
+Print Assumptions C12_B5_for_step_order_refuted_before_fix.
+Theorem C12_B5_for_step_order_fixed : c12_deviates w_B5_for_step_order [97; 46; 108; 117; 97] 1 7 = false.
+Proof. vm_compute. reflexivity. Qed.
+Print Assumptions C12_B5_for_step_order_fixed.
 
 (* a.lua: do g = 1 end\ng = 2\nuse(g)\n *)
 Definition w_global_mixed_levels : list (list N * list N) :=
